@@ -2703,6 +2703,7 @@ func (p *Posix) UploadPartCopy(ctx context.Context, upi *s3.UploadPartCopyInput)
 	if err != nil {
 		return s3response.CopyPartResult{}, err
 	}
+	srcKey := srcObject
 
 	_, err = os.Stat(srcBucket)
 	if errors.Is(err, fs.ErrNotExist) {
@@ -2757,6 +2758,16 @@ func (p *Posix) UploadPartCopy(ctx context.Context, upi *s3.UploadPartCopyInput)
 		return s3response.CopyPartResult{}, fmt.Errorf("stat object: %w", err)
 	}
 
+	// a key with a trailing "/" names a directory object, any other key a
+	// file object (as in CopyObject); a directory object has no data
+	if strings.HasSuffix(srcKey, "/") != fi.IsDir() {
+		return s3response.CopyPartResult{}, s3err.GetAPIError(s3err.ErrNoSuchKey)
+	}
+	srcSize := fi.Size()
+	if fi.IsDir() {
+		srcSize = 0
+	}
+
 	if p.versioningEnabled() {
 		// a delete marker is not an object that can be copied
 		isDelMarker, err := p.isObjDeleteMarker(srcBucket, srcObject)
@@ -2771,7 +2782,7 @@ func (p *Posix) UploadPartCopy(ctx context.Context, upi *s3.UploadPartCopyInput)
 		}
 	}
 
-	startOffset, length, err := backend.ParseCopySourceRange(fi.Size(), *upi.CopySourceRange)
+	startOffset, length, err := backend.ParseCopySourceRange(srcSize, *upi.CopySourceRange)
 	if err != nil {
 		return s3response.CopyPartResult{}, err
 	}
@@ -4559,6 +4570,12 @@ func (p *Posix) CopyObject(ctx context.Context, input s3response.CopyObjectInput
 		}
 	} else {
 		contentLength := fi.Size()
+		var body io.Reader = f
+		if fi.IsDir() {
+			// a directory object has no data
+			contentLength = 0
+			body = strings.NewReader("")
+		}
 
 		checksums, err := p.retrieveChecksums(f, srcBucket, srcObject)
 		if err != nil && !errors.Is(err, meta.ErrNoSuchKey) {
@@ -4574,7 +4591,7 @@ func (p *Posix) CopyObject(ctx context.Context, input s3response.CopyObjectInput
 		putObjectInput := s3response.PutObjectInput{
 			Bucket:                    &dstBucket,
 			Key:                       &dstObject,
-			Body:                      f,
+			Body:                      body,
 			ContentLength:             &contentLength,
 			ChecksumAlgorithm:         checksums.Algorithm,
 			ContentType:               input.ContentType,
